@@ -168,7 +168,7 @@ Theorem C01_pipeline_from_start_partial : forall P ops w s0, let C := pc_reader 
 Proof. exact replay_pipeline_from_start_x. Qed.
 Print Assumptions C01_pipeline_from_start_partial.
 
-(* pinned code (c_fix_moveout = false) on the F10d history mkdir R/b; mkdir R/b/b; mv R/b/b O/x; mv O/x R/n; mv R/b R/m;
+(* pinned code (cfgo false: c_fix_moveout = c_fix_relabel = false; either repair alone replays it) on the F10d history mkdir R/b; mkdir R/b/b; mv R/b/b O/x; mv O/x R/n; mv R/b R/m;
    touch R/n/f : the replayed stream is NOT the tree (events carry the stale path) *)
 Theorem C01_f10d_pinned_refuted : run_replay (cfgo false) f10d_ops = Some false.
 Proof. exact f10d_replay_pinned_refuted. Qed.
